@@ -58,3 +58,13 @@ class TimeSourceContext:
                 flask.request.host_url,
                 flask.url_for('time', method=self.method))
             self.value += dict_to_cgi_params(cgi_params.time)
+
+    def to_json(self) -> dict[str, str | None]:
+        """
+        Used when the manifest context is given to a page as JSON
+        """
+        return {
+            'method': self.method,
+            'schemeIdUri': self.schemeIdUri,
+            'value': self.value,
+        }
